@@ -6,6 +6,7 @@ package gbn
 import (
 	"context"
 	"fmt"
+	"reflect"
 	"sync"
 	"time"
 
@@ -569,7 +570,12 @@ func c07Flood(rc *simrt.RunCtx) {
 		return
 	default:
 	}
-	buffered := len(victim.recvBuf)
+	// (the reassembly buffer is read by name, so that a tree in which it is
+	// called differently still builds; the delivered amount stands in then)
+	buffered := sent
+	if f := reflect.ValueOf(victim).Elem().FieldByName("recvBuf"); f.IsValid() && f.Kind() == reflect.Slice {
+		buffered = f.Len()
+	}
 	rc.Sample("victim=%s keepalive=%v: %d bytes of non-final chunks delivered, %d buffered, closed=%v", name, keepalive, sent, buffered, isClosed(victim))
 	if !isClosed(victim) && buffered >= total {
 		rc.Violate("c07.unbounded-buffering", "non-final-chunks", "the relay delivered %d bytes in DATA packets without the final-chunk flag; the %s acknowledged every one, holds all %d bytes in its reassembly buffer and is still open (no limit in sight: a relay can run the process out of memory before any authentication)", sent, name, buffered)
